@@ -32,7 +32,10 @@
 //   mask   connection strings from the key=value grammar (1 … 200 tokens, password first / middle / last /
 //          at positions 19, 20, 21, repeated, very long values) (and near-misses): after Process() of an
 //          SQL / SQL-param / DBC pack of the Go and PHP families no password token keeps its value;
-//          Dbc vs driver on ASCII strings.
+//          passwords whose text also occurs elsewhere in the string (a piece of the key: password=word) must not
+//          be left in value position (secretLeft); Dbc vs driver on ASCII strings.
+//   api    (api.go) streams of packs through one buffer (WritePack / ReadPack), the setters, the ParamKV
+//          accessors, GetPackType / version / flush accessors.
 //   num    ParseStringZeroToEmpty / ParseInt32 / ParseInt64 / Truncate vs the digit-function model.
 package main
 
@@ -2038,6 +2041,7 @@ func genKvText(r *vh.Rng, sep string, wsSet []string) kvText {
 	var toks []string
 	var secrets []string
 	has := false
+	selfKv := false
 	ws := func() string { return r.PickStr(wsSet) }
 	for i := 0; i < n; i++ {
 		k := r.PickStr(kvKeys)
@@ -2058,12 +2062,19 @@ func genKvText(r *vh.Rng, sep string, wsSet []string) kvText {
 			if r.Chance(10) {
 				v = ""
 			} else {
+				if r.Chance(15) { // the value's text also occurs in its key / in an earlier token
+					v = selfValue(r, k, toks)
+					selfKv = true
+				}
 				secrets = append(secrets, v)
 			}
 		}
 		toks = append(toks, ws()+k+ws()+"="+ws()+v+ws())
 	}
 	shape := "sep" + map[string]string{" ": "blank", ";": "semicolon", "&": "amp", "mix": "mixed"}[sep]
+	if selfKv {
+		shape += "+selfref"
+	}
 	if sep == "mix" {
 		var b strings.Builder
 		for i, t := range toks {
@@ -2075,6 +2086,16 @@ func genKvText(r *vh.Rng, sep string, wsSet []string) kvText {
 		return kvText{b.String(), sep, key, secrets, shape}
 	}
 	return kvText{strings.Join(toks, sep), sep, key, secrets, shape}
+}
+
+// kvValueHas: some token of s (split at sep) has sec inside its value (the text after its first '=')
+func kvValueHas(s, sep, sec string) bool {
+	for _, tok := range strings.Split(s, sep) {
+		if i := strings.Index(tok, "="); i >= 0 && strings.Contains(tok[i+1:], sec) {
+			return true
+		}
+	}
+	return false
 }
 
 func stageParamKV() {
@@ -2131,6 +2152,11 @@ func stageParamKV() {
 			if strings.Contains(j.impl, sec) && !strings.Contains(ref, sec) {
 				bad = fmt.Sprintf("the value %q of the key survives", sec)
 			}
+			// value position: a token of the result has the removed value after its '=' although no token of the
+			// intended result has (the value's text may legitimately stay inside a key: password=word)
+			if sec != "" && sec != j.val && kvValueHas(j.impl, j.t.sep, sec) && !kvValueHas(ref, j.t.sep, sec) {
+				bad = fmt.Sprintf("the value %q of the key survives as the value of a token", sec)
+			}
 		}
 		if bad != "" {
 			kvExplained = true
@@ -2175,9 +2201,9 @@ func stageParamKV() {
 				continue
 			}
 			for _, sec := range t.secrets {
-				if strings.Contains(out, sec) {
+				if where, _ := secretLeft(t.s, out, sec); where != "" {
 					rep.Fail("property", "SqlDbcPacks:Process:password",
-						fmt.Sprintf("%s.Process() at version %d turns Dbc %q into %q, which still has the password value %q", tname, ver, vh.Clip(t.s, 160), vh.Clip(out, 160), sec), replay)
+						fmt.Sprintf("%s.Process() at version %d turns Dbc %q into %q, which still has the password value %q %s", tname, ver, vh.Clip(t.s, 160), vh.Clip(out, 160), sec, where), replay)
 					break
 				}
 			}
@@ -2258,9 +2284,52 @@ func genValue(r *vh.Rng) string {
 	return v
 }
 
+// selfValue: a value whose text also occurs elsewhere in the connection string — a piece of its own key
+// (password=word, password=ss, password=password), of an earlier token, two pieces of the key.  A masking
+// that finds the value by searching the token / the string for its text instead of by position replaces
+// the wrong occurrence on exactly these.
+func selfValue(r *vh.Rng, key string, prev []string) string {
+	pick := func(src string) string {
+		if src == "" {
+			return ""
+		}
+		i := r.Intn(len(src))
+		return src[i : i+1+r.Intn(len(src)-i)]
+	}
+	v := ""
+	switch r.Intn(7) {
+	case 0, 1:
+		v = pick(key)
+	case 2:
+		v = key
+	case 3:
+		if len(prev) > 0 {
+			v = pick(prev[len(prev)-1])
+		}
+	case 4:
+		if len(prev) > 0 {
+			v = pick(prev[r.Intn(len(prev))])
+		}
+	case 5:
+		v = pick(key) + pick(key)
+	case 6:
+		v = key[:1+r.Intn(len(key))] // a prefix of the key
+	}
+	if v == "" || v == "#" || strings.ContainsAny(v, " ;=&\t\n\r\v\f") || strings.TrimSpace(v) != v {
+		v = key[len(key)/2:]
+	}
+	return v
+}
+
 func buildConn(r *vh.Rng, ntok int, pw map[int]bool, sepMode int) connStr {
+	return buildConnSelf(r, ntok, pw, sepMode, 0)
+}
+
+// buildConnSelf: selfPct = how often (percent) a value is made from text that occurs elsewhere in the string
+func buildConnSelf(r *vh.Rng, ntok int, pw map[int]bool, sepMode int, selfPct int) connStr {
 	var toks []string
 	var secrets []string
+	self := false
 	for i := 0; i < ntok; i++ {
 		k := r.PickStr(plainKeys)
 		if r.Chance(20) {
@@ -2271,12 +2340,20 @@ func buildConn(r *vh.Rng, ntok int, pw map[int]bool, sepMode int) connStr {
 			k = "password"
 		}
 		if k == "password" && (pw[i] || r.Chance(80)) {
-			secretN++
-			v = fmt.Sprintf("PW%dx", secretN) + genPlain(r, 3)
-			if r.Chance(5) {
-				v += genValue(r)
+			if selfPct > 0 && r.Chance(selfPct) {
+				v = selfValue(r, k, toks)
+				self = true
+			} else {
+				secretN++
+				v = fmt.Sprintf("PW%dx", secretN) + genPlain(r, 3)
+				if r.Chance(5) {
+					v += genValue(r)
+				}
 			}
 			secrets = append(secrets, v)
+		} else if selfPct > 0 && k != "" && r.Chance(selfPct/2) {
+			v = selfValue(r, k, toks)
+			self = true
 		}
 		toks = append(toks, k+"="+v)
 	}
@@ -2307,7 +2384,38 @@ func buildConn(r *vh.Rng, ntok int, pw map[int]bool, sepMode int) connStr {
 	if !asciiOnly([]byte(cs.s)) {
 		cs.shape += "+non-ascii"
 	}
+	if self {
+		cs.shape += "+selfref"
+	}
 	return cs
+}
+
+// systematic self-referential passwords: every piece of the key "password" as the password, first / middle /
+// last of three tokens, every separator mode
+func selfRefConns() []connStr {
+	var out []connStr
+	seen := map[string]bool{}
+	key := "password"
+	for i := 0; i < len(key); i++ {
+		for j := i + 1; j <= len(key); j++ {
+			v := key[i:j]
+			if seen[v] {
+				continue
+			}
+			seen[v] = true
+			for sm, seps := range [][2]string{{" ", " "}, {";", ";"}, {";", " "}, {" ", ";"}} {
+				shape := []string{"uniform-space", "uniform-semicolon", "mixed", "mixed"}[sm] + "+selfref"
+				for pos := 0; pos < 3; pos++ {
+					toks := []string{"host=db1", "user=app"}
+					pwTok := "password=" + v
+					toks = append(toks[:pos], append([]string{pwTok}, toks[pos:]...)...)
+					out = append(out, connStr{toks[0] + seps[0] + toks[1] + seps[1] + toks[2], true, []string{v}, shape})
+				}
+			}
+			out = append(out, connStr{"password=" + v, true, []string{v}, "uniform-space+selfref"})
+		}
+	}
+	return out
 }
 
 // systematic long strings: every count × separator mode × password position
@@ -2341,7 +2449,11 @@ func genConn(r *vh.Rng) connStr {
 	if r.Chance(70) {
 		pw = pwPositions(r, ntok)
 	}
-	cs := buildConn(r, ntok, pw, r.Intn(3))
+	selfPct := 0
+	if r.Chance(15) { // values whose text occurs elsewhere in the string
+		selfPct = 70
+	}
+	cs := buildConnSelf(r, ntok, pw, r.Intn(3), selfPct)
 	if r.Chance(35) { // near-misses
 		cs.grammar = false
 		s := cs.s
@@ -2399,11 +2511,64 @@ func leaks(cs connStr, out string) []string {
 		}
 	}
 	for _, sec := range cs.secrets {
-		if strings.Contains(out, sec) {
-			res = append(res, sec)
+		if where, _ := secretLeft(cs.s, out, sec); where != "" {
+			res = append(res, sec+" ("+where+")")
 		}
 	}
 	return res
+}
+
+func splitTokens(s string) []string {
+	var res []string
+	for _, a := range strings.Split(s, ";") {
+		res = append(res, strings.Split(a, " ")...)
+	}
+	return res
+}
+
+// secretLeft: is the password value sec of the connection string s still in out (the string after masking)?
+//   - sec occurs nowhere else in s (not in a key, not in another value): it must not occur in out at all;
+//   - sec also occurs in key position only (password=word, pass=1 password=pass): no token of out may have it
+//     in value position (after the token's last '=') — the key "password" legitimately still contains "word";
+//   - sec also occurs in the value of a token with another key: nothing is asserted (that value stays).
+// asserted = false in the last case and for the empty value / the mask text itself.
+func secretLeft(s, out, sec string) (where string, asserted bool) {
+	if sec == "" || sec == "#" {
+		return "", false
+	}
+	elsewhere, innocent := false, false
+	for _, tok := range splitTokens(s) {
+		i := strings.Index(tok, "=")
+		if i < 0 {
+			if strings.Contains(tok, sec) {
+				elsewhere, innocent = true, true
+			}
+			continue
+		}
+		if strings.Contains(tok[:i], sec) {
+			elsewhere = true
+		}
+		if strings.TrimSpace(tok[:i]) != "password" && strings.Contains(tok[i+1:], sec) {
+			elsewhere, innocent = true, true
+		}
+	}
+	switch {
+	case innocent:
+		return "", false
+	case !elsewhere:
+		if strings.Contains(out, sec) {
+			return "in the text", true
+		}
+	default:
+		for _, tok := range splitTokens(out) {
+			// after the token's last '=': an empty value followed by a blank makes the unchanged code glue two
+			// tokens ("a= password=x" -> "a=password=#"), so the text after the first '=' may contain a key
+			if i := strings.LastIndex(tok, "="); i >= 0 && strings.Contains(tok[i+1:], sec) {
+				return "as the value of the token " + strconv.Quote(tok), true
+			}
+		}
+	}
+	return "", true
 }
 
 func processDbc(tname string, ver int32, dbc string) (string, vh.Outcome) {
@@ -2488,6 +2653,17 @@ func maskSearch1(tname string, s string) bool {
 		for _, ver := range []int32{50100, 10110} {
 			if _, _, bad := maskProperty(tname, ver, cs); bad {
 				return true
+			}
+		}
+	}
+	// a password whose text also occurs elsewhere in its token / in the string
+	for _, v := range []string{"word", "pass", "ss", "a", "d", "password", "passwor", "assword", "host", "db1", "h", "1"} {
+		for _, form := range []string{"password=%s", "host=db1 password=%s", "host=db1;password=%s", "host=db1 password=%s user=u", "host=db1;password=%s;user=u", "a=1;b=2 password=%s;c=3"} {
+			cs := connStr{fmt.Sprintf(form, v), true, []string{v}, "search-selfref"}
+			for _, ver := range []int32{50100, 10110} {
+				if _, _, bad := maskProperty(tname, ver, cs); bad {
+					return true
+				}
 			}
 		}
 	}
@@ -2594,6 +2770,7 @@ func stageMask() {
 		{"\xff=1;password=secret", true, []string{"secret"}, "uniform-semicolon+non-ascii"},
 	}
 	fixed = append(fixed, fixedLongConns(rng)...)
+	fixed = append(fixed, selfRefConns()...)
 	if n < len(fixed)+500 {
 		n = len(fixed) + 500
 	}
@@ -2608,6 +2785,9 @@ func stageMask() {
 		vs := pickVers()
 		if i < len(fixed) {
 			vs = []int32{50100, 10110, maskVers[rng.Intn(len(maskVers))]}
+			if strings.HasSuffix(cs.shape, "+selfref") { // the systematic self-referential block: both families, no third version
+				vs = vs[:2]
+			}
 		}
 		for _, ver := range vs {
 			jobs = append(jobs, job{t, ver, cs})
@@ -2622,6 +2802,11 @@ func stageMask() {
 		rep.Case(fmt.Sprintf("mask %s %d %s", j.t, j.ver, j.cs.s), strings.Contains(j.cs.s, "="))
 		if inMaskFamily(j.ver) && j.cs.grammar && len(j.cs.secrets) > 0 {
 			rep.Count("mask.grammar_with_password_in_masking_family")
+			for _, sec := range j.cs.secrets {
+				if _, asserted := secretLeft(j.cs.s, "", sec); !asserted {
+					rep.Count("mask.secret_not_assertable(empty, '#', or also the value of another key)")
+				}
+			}
 		}
 		maskOne(j.t, j.ver, j.cs, outs[i])
 	}
@@ -2818,6 +3003,8 @@ func runReplay(path string) {
 			stageRoute()
 		case "paramkv":
 			stageParamKV()
+		case "api":
+			stageApi()
 		case "pool":
 			stagePool()
 		case "pool2":
@@ -2919,6 +3106,7 @@ func main() {
 	runStage("conc", stageConc)
 	runStage("mask", stageMask)
 	runStage("paramkv", stageParamKV)
+	runStage("api", stageApi)
 	runStage("num", stageNum)
 	runStage("known", knownReplays)
 	ctorPanics.Range(func(k, v interface{}) bool {
